@@ -28,6 +28,14 @@ def histories(rng, tier):
         keys = rng.sample(['AKEY', 'BKEY', 'LONGERKEYNAME', 'X1'], rng.randint(0, 3))
         for k in keys:
             h.append('meta m k=%s v=%s' % (k, rng.choice(['12', '-3', 'hello', 'A_B'])))
+        if rng.random() < 0.15:
+            # a storage-kind keyword of ANOTHER kind left in the metadata (a map made like one read from a file of
+            # another kind inherits them): the writer owns these keywords (finding F72)
+            stale = rng.choice([['BITPACK'], ['WIDEMASK', 'WWIDTH'], ['PRIMARY'], ['WWIDTH']])
+            if not (c.kind == 'packed' and 'BITPACK' in stale or c.kind == 'wide' and 'WIDEMASK' in stale
+                    or c.kind == 'wide' and 'WWIDTH' in stale or c.kind == 'rec' and 'PRIMARY' in stale):
+                for k in stale:
+                    h.append('meta m k=%s v=%s' % (k, 'a' if k == 'PRIMARY' else rng.choice(['1', '2'])))
         comp = rng.choice(['0', '1'])
         h += ['write m f=f1 compress=%s' % comp, 'fitsraw f=f1', 'covread f=f1', 'covmask m',
               'read r=r f=f1', 'info r', 'state r', 'vals r', 'valid r', 'state m']
